@@ -327,6 +327,10 @@ where
     }
 }
 
+#[cfg(googlefonts_fontations_verif)]
+#[path = "/verif/harness/incrate/path.rs"]
+mod verif_harness;
+
 #[cfg(test)]
 mod tests {
     use super::{super::pen::SvgPen, *};
